@@ -49,7 +49,7 @@ func (crashScen) Decode(raw json.RawMessage) (any, error) {
 	return &c, err
 }
 func (crashScen) Rule(string) string {
-	return "case = a cachehist history prefix (1-6 ops) ending in an invocation that is first run dry to list every crash point it passes (cache.init.*, run.task.before/after, task.cmd.before/after, run.dump.before/after) and every cache write with its length; then from the same disk snapshot the invocation is repeated once per crash point and once per byte prefix k of each cache write (quick: k in {0,1,len/2,len-1,len} plus 4 seeded; thorough: every k), dying there (or, for a third of the prefixes, returning ENOSPC/EIO), each followed by 2-3 continuations {edit/revert a dependency, nothing} + unforced runs. Oracle: in the continuation every reported skip is legal w.r.t. last[] updated with the tasks that completed before the kill; a failing continuation mentions the cache. distinct_nontrivial = distinct (crash site or tear class, tasks completed before the kill, continuation shape, outcome) tuples."
+	return "case = a cachehist history prefix (1-6 ops) ending in an invocation that is first run dry to list every crash point it passes (cache.init.*, run.task.before/after, task.cmd.before/after, run.dump.before/after) and every cache write with its length; then from the same disk snapshot the invocation is repeated once per crash point and once per byte prefix k of each cache write (quick: k in {0,1,len/2,len-1,len} plus 4 seeded; thorough: every k), dying there (or, for a third of the prefixes, returning ENOSPC/EIO), and twice per cache write dying with the complete new contents under a temporary-looking sibling name and cache.json untouched (a kill between write-temporary and rename); each followed by 2-3 continuations {edit/revert a dependency, nothing} + unforced runs, or {third content, run, back to what the killed run saw, run}. Histories may drop stray files beside cache.json. Oracle: in the continuation every reported skip is legal w.r.t. last[] updated with the tasks that completed before the kill; a failing continuation mentions the cache. distinct_nontrivial = distinct (crash site or tear class, tasks completed before the kill, continuation shape, outcome) tuples."
 }
 
 func (crashScen) Gen(r *Rng, cfg GenConfig) any {
@@ -132,6 +132,7 @@ type projSnapshot struct {
 	disk      map[string]string
 	ctlM      map[string]int
 	last      map[string]*string
+	cacheGone map[string]bool
 	lastFail  map[string]bool
 	logLen    int
 	inv       int
@@ -139,7 +140,10 @@ type projSnapshot struct {
 
 func (s *projState) snapshot() projSnapshot {
 	p := projSnapshot{home: Snap(s.w.Home), ctl: Snap(s.w.Ctl), log: readFileOr(s.w.Log, ""), disk: map[string]string{}, ctlM: map[string]int{},
-		last: map[string]*string{}, lastFail: map[string]bool{}, logLen: s.logLen, inv: s.inv}
+		last: map[string]*string{}, lastFail: map[string]bool{}, cacheGone: map[string]bool{}, logLen: s.logLen, inv: s.inv}
+	for k, v := range s.cacheGone {
+		p.cacheGone[k] = v
+	}
 	for k, v := range s.disk {
 		p.disk[k] = v
 	}
@@ -182,6 +186,10 @@ func (s *projState) restore(p projSnapshot) {
 	for k, v := range p.lastFail {
 		s.lastFail[k] = v
 	}
+	s.cacheGone = map[string]bool{}
+	for k, v := range p.cacheGone {
+		s.cacheGone[k] = v
+	}
 	s.logLen, s.inv = p.logLen, p.inv
 }
 
@@ -203,6 +211,7 @@ func (s *projState) killedRun(res *Result, sched Sched, op CHOp, f Faults, label
 			in, _, _ := Inputs(s.prog, s.prog.Task(n), s.withLinks(s.disk))
 			s.last[n] = &in
 			s.lastFail[n] = false
+			s.cacheGone[n] = false
 			done = append(done, n)
 		} else {
 			s.lastFail[n] = true
